@@ -2,6 +2,7 @@ package generator
 
 import (
 	"strings"
+	"unicode/utf8"
 
 	"github.com/go-openapi/spec"
 )
@@ -58,3 +59,21 @@ func vs_isGoKeyword(w string) bool {
 	}
 	return false
 }
+
+// ---- C10: raw-string escaping of the embedded spec ----
+
+// vs_rawEscape: inside a Go raw string literal a backtick is written by closing the literal,
+// concatenating an interpreted string holding the backtick, and re-opening the literal.
+const vs_rawEscape = "`+\"`\"+`"
+
+// vs_piece: what one rune of the input contributes to the escaped text: the escape sequence for a
+// backtick, otherwise the rune's own bytes s[p:q].
+func vs_piece(s string, p, q int, r rune) string {
+	if r == '`' {
+		return vs_rawEscape
+	}
+	return s[p:q]
+}
+
+// vs_validUTF8: the text is valid UTF-8 (what encoding/json always produces).
+func vs_validUTF8(s string) bool { return utf8.ValidString(s) }
